@@ -112,6 +112,8 @@ def probes(seed):
     pr['SIGN'] = P(ks) + op('SIGN') + b'\x00'
     pr['SIGN_STACK'] = P(b'm') + P(ks) + op('SIGN_STACK')
     pr['CHECK_TEMPLATE'] = P(f1) + op('CHECK_TEMPLATE') + b'\x01'
+    pr['CHECK_TEMPLATE_00'] = op('CHECK_TEMPLATE') + b'\x00'
+    pr['CHECK_TEMPLATE_03'] = P(b'\x22\x22') + P(f1) + op('CHECK_TEMPLATE') + b'\x03'
     pr['CHECK_TEMPLATE_rev'] = P(f1[::-1]) + op('CHECK_TEMPLATE') + b'\x01'
     pr['GET_MESSAGE'] = op('GET_MESSAGE') + b'\x00'
     pr['CHECK_SIG'] = P(sig) + P(pk) + op('CHECK_SIG') + b'\x00'
@@ -150,7 +152,8 @@ def configurations(seed):
     cfg.append(('EVAL allowed', 'EVAL', {}, None, b''))
     cfg.append(('eval_return', 'EVAL_RETURN', {'eval_return': True}, None, b''))
     cfg.append(('eval_return off', 'EVAL_RETURN', {}, None, b''))
-    for name in ('GET_MESSAGE', 'CHECK_SIG', 'CHECK_SIG_VERIFY', 'CHECK_MULTISIG', 'SIGN', 'CHECK_TEMPLATE', 'TAPROOT_KEY'):
+    for name in ('GET_MESSAGE', 'CHECK_SIG', 'CHECK_SIG_VERIFY', 'CHECK_MULTISIG', 'SIGN', 'CHECK_TEMPLATE', 'TAPROOT_KEY',
+                 'CHECK_TEMPLATE_00', 'CHECK_TEMPLATE_03'):
         cfg.append(('sigext plugin per run ' + name, name, {}, 'run', b''))
     cfg.append(('sigext plugin global SIGN', 'SIGN', {}, 'global', b''))
     cfg.append(('sigext plugin global CHECK_SIG', 'CHECK_SIG', {}, 'global', b''))
